@@ -8,7 +8,7 @@ RULE = ('each event is one call of an internal tower / pairing-engine function, 
         'on an arbitrary element built from a literal: Fq4 {mul, squared, inverse, mul_1 (sparse precondition), the eight Frobenius '
         'component maps, scale, scale_fq, mul_by_nonresidue, unitary_inverse, add, sub, neg}, Fq12 {mul, squared, inverse, mul_015 (sparse '
         'precondition), frobenius 1/2/3/6, scale, mul_by_nonresidue, pow(u128) with the exponents used by the addition chains and random ones, '
-        'pow(Fr), final_exponentiation, final_exp, first chunk, both last chunks (on unitary inputs)}, and both Miller loops on the same inputs. '
+        'pow(Fr), final_exponentiation, final_exp, first chunk, both last chunks (on unitary inputs)}, both Miller loops on the same inputs, and (optional hooks) every single line function of both loops - tangent / chord value and accumulator update - for each representation of T and Q, plus the Frobenius images of Q. '
         'Oracle: flat Fq[w]/(w^12+2) arithmetic of the model (schoolbook product, extended-Euclid inverse, x^(q^k) by generic powering, '
         'x^((q^12-1)/r) by one generic power). Element classes: uniform, sparse, subfield (Fq, Fq2, Fq4), unitary, zero, limb patterns, '
         'all-coefficients-near-q in the Montgomery domain (maximal carries in the interleaved multiplier; the model computes and reports the '
@@ -35,6 +35,8 @@ def cases(tier, seed):
         out.append(('fexp', i))
     for i in range(n // 4 + 1):
         out.append(('miller', i))
+    for i in range(n // 3 + 1):
+        out.append(('lines', i))
     return out
 
 
@@ -231,7 +233,7 @@ def run(ctx, spec):
             add('_ f12.fexp %s' % h12(rm.ZERO), 'f12.fexp/zero', 'none', None, False)
             add('_ f12.fexp2 %s' % h12(rm.ZERO), 'f12.fexp2/zero', 'none', None, False)
             add('_ f12.first %s' % h12(rm.ZERO), 'f12.first/zero', 'none', None, False)
-    else:
+    elif kind == 'miller':
         aa = gen.scalar_r(rng)[0] or 1
         bb = gen.scalar_r(rng)[0] or 1
         P, Q = rm.gmul(1, aa), rm.gmul(2, bb)
@@ -255,6 +257,8 @@ def run(ctx, spec):
         exp.append(('setup', None, None, False))
         lines.append('mp ml.prep $pp %s' % pl)
         exp.append(('ml.prep', ('ml', want), ('mlprep', aa, bb), True))
+    if kind == 'lines':
+        return run_lines(ctx, rng)
     ans = ctx.run(lines)
     mls = {}
     for line, an, (cls, want, key, nontriv) in zip(lines, ans, exp):
@@ -288,3 +292,116 @@ def run(ctx, spec):
         else:
             ctx.fail('ml.agree', 'the two Miller loops differ by a factor that the final exponentiation does not remove', line=lines[0][:300])
     ctx.sample(kind, {'program': [l[:100] for l in lines[:3]], 'answers': [a[:80] for a in ans[:3]]})
+
+
+# --------------------------------------------------------------------------- individual line functions (optional hooks)
+def _retwist(X, Y):
+    """(x w^2, y w^3) of a point of E(Fq12) that lies in the image of the twist: back to Fq2 coordinates, or None"""
+    w2 = [0] * 12
+    w2[2] = 1
+    w3 = [0] * 12
+    w3[3] = 1
+    x = fmul(X, w2)
+    y = fmul(Y, w3)
+    if any(x[i] for i in range(12) if i not in (0, 6)) or any(y[i] for i in range(12) if i not in (0, 6)):
+        return None
+    return ((x[0], x[6]), (y[0], y[6]))
+
+
+def run_lines(ctx, rng):
+    """tangent / chord line values of both Miller-loop variants on every representation of the accumulator T (and of Q for the
+    Jacobian variant): equal to the textbook line on E(Fq12) up to a factor that the final exponentiation removes"""
+    tk = gen.scalar_r(rng)[0] or 1
+    qk = gen.scalar_r(rng)[0] or 2
+    if (tk - qk) % r == 0 or (tk + qk) % r == 0:
+        qk = (qk + 1) % r or 3
+    pk = rng.randrange(1, r)
+    T, Q, P = rm.gmul(2, tk), rm.gmul(2, qk), rm.gmul(1, pk)
+    Tu, Qu = rm.untwist(T), rm.untwist(Q)
+    Pu = (rm.fconst(P[0]), rm.fconst(P[1]))
+    tan_rm, _ = rm._line(Tu, Tu, Pu)
+    chord_rm, _ = rm._line(Tu, Qu, Pu)
+    pr = gen.Prog()
+    trep = rng.choice(['aff', 'scaled', 'scaled', 'jac'])
+    qrep = rng.choice(['aff', 'scaled', 'scaled', 'jac'])
+    Treg = gen.point(pr, rng, 2, tk, trep)
+    Qreg = gen.point(pr, rng, 2, qk, qrep)
+    Qaff = gen.point(pr, rng, 2, qk, 'aff')
+    Preg = pr.let('g1.lit', rm.jac_lit(F1, P))[0]
+    i_et = pr.emit('_', 'ln.etan', Treg, Preg)
+    i_el = pr.emit('_', 'ln.eline', Treg, Qreg, Preg)
+    i_pt = pr.emit('_', 'ln.ptan', Treg)
+    i_pl = pr.emit('_', 'ln.pline', Treg, Qaff)
+    i_p1 = pr.emit('_', 'ln.pi1', Qreg)
+    i_p2 = pr.emit('_', 'ln.pi2', Qreg)
+    ans = ctx.run(pr.lines)
+    if any(a == 'ok unsupported' for a in ans):
+        ctx.count('line-hooks-unavailable')
+        ctx.notes.append('optional line-function hooks not available in this tree')
+        return
+    for i in range(i_et):
+        if not ans[i].startswith('ok '):
+            ctx.fail('setup', 'operand construction answered %r for %s' % (ans[i][:100], pr.lines[i][:120]), observed=ans[i], line=pr.lines[i])
+            return
+
+    def same_up_to_final_exp(v, ref):
+        return any(v) and fpow(fmul(v, finv(ref)), rm.FINAL_EXP) == rm.ONE
+
+    def numden(i, ref, cls):
+        an = ans[i]
+        try:
+            a, b = an[3:].split(' ')
+            num, den = rm.de12(bytes.fromhex(a)), rm.de12(bytes.fromhex(b))
+            good = any(den) and same_up_to_final_exp(fmul(num, finv(den)), ref)
+        except Exception:
+            good = False
+        if good:
+            ctx.ok(cls, (cls, pr.lines[i]))
+        else:
+            ctx.fail(cls.split('/')[0], '%s: the line value is not the textbook line up to a factor removed by the final exponentiation (T %s, Q %s): %r' % (
+                cls, trep, qrep, an[:80]), observed=an[:400], line=pr.lines[i][:600])
+
+    numden(i_et, tan_rm, 'ln.eval_g_tangent/T-' + trep)
+    numden(i_el, chord_rm, 'ln.eval_g_line/T-%s' % trep)
+    ctx.classes['ln.eval_g_line/Q-' + qrep] += 1
+    # prepared variant: coefficients -> sparse element -> same comparison; the accumulator must have moved to 2T resp. T+Q
+    second = gen.Prog()
+    meta = []
+    for i, ref, cls, newpt in ((i_pt, tan_rm, 'ln.g_tangent/T-' + trep, rm.cadd(rm.F2, T, T)), (i_pl, chord_rm, 'ln.g_line/T-' + trep, rm.cadd(rm.F2, T, Q))):
+        an = ans[i]
+        try:
+            c0, c1, c2, tnew = an[3:].split(' ')
+            got = rm.jac_affine(rm.F2, rm.jac_parse(rm.F2, tnew))
+        except Exception:
+            ctx.fail(cls.split('/')[0], '%s: unparsable answer %r' % (cls, an[:100]), observed=an[:300], line=pr.lines[i][:400])
+            continue
+        if got != newpt:
+            ctx.fail(cls.split('/')[0], '%s: the accumulator does not denote the expected point after the step' % cls, observed=an[:300], line=pr.lines[i][:400])
+            continue
+        j = second.emit('_', 'ln.pval', c0, c1, c2, rm.jac_lit(F1, P))
+        meta.append((j, ref, cls, pr.lines[i]))
+    if meta:
+        ans2 = ctx.run(second.lines)
+        for j, ref, cls, src in meta:
+            good = False
+            try:
+                good = ans2[j].startswith('ok ') and same_up_to_final_exp(rm.de12(bytes.fromhex(ans2[j][3:])), ref)
+            except Exception:
+                good = False
+            if good:
+                ctx.ok(cls, (cls, src))
+            else:
+                ctx.fail(cls.split('/')[0], '%s: the prepared line value is not the textbook line up to a factor removed by the final exponentiation (T %s)' % (cls, trep),
+                         observed=ans2[j][:300], line=src[:400])
+    # Frobenius images of Q on the twist
+    for i, k, cls in ((i_p1, 1, 'ln.point_pi1'), (i_p2, 2, 'ln.point_pi2')):
+        want = _retwist(frob(Qu[0], k), frob(Qu[1], k))
+        try:
+            got = rm.jac_affine(rm.F2, rm.jac_parse(rm.F2, ans[i][3:])) if ans[i].startswith('ok ') else 'bad'
+        except Exception:
+            got = 'bad'
+        if want is not None and got == want:
+            ctx.ok(cls + '/Q-' + qrep, (cls, pr.lines[i]))
+        else:
+            ctx.fail(cls, '%s: not the q^%d-power Frobenius image of Q (Q %s)' % (cls, k, qrep), observed=ans[i][:300], line=pr.lines[i][:400])
+    ctx.sample('lines', {'program': [l[:100] for l in pr.lines[-6:]], 'answers': [a[:80] for a in ans[-6:]]})
